@@ -12,6 +12,7 @@ Oracle (model-free): random free-free source/load pairs; every calcAM route and 
 against plain numpy (T Z^-1 T' inverted), ntfl against the physically coupled system assembled and
 solved with numpy.linalg.solve, AM.Acc = I, f = 0 and f -> 0 against the rigid-body mass.
 """
+import math
 import warnings
 
 import numpy as np
@@ -365,14 +366,26 @@ def _drm_cases(ctx):
     rng = ctx.np_rng(152)
     n = ctx.pick(300, 3000)
     out = []
+    for c in _corpus(ctx):  # minimised past failures run first
+        if c.get("kind") == "calcAM-drm":
+            out.append({"route": c.get("route", "default"), "M": _dec(c["M"]), "B": _dec(c["B"]), "K": _dec(c["K"]),
+                        "T": _dec(c["T"]), "freq": np.array(c["freq"]), "tk": "corpus", "stiff": bool(c.get("stiff"))})
     for it in range(n):
-        route = ("default", "default", "freqdirect", "solveunc")[it % 4]
+        route = ("default", "default", "freqdirect", "solveunc", "solveunc-h", "solveunc-h-pre")[it % 6]
         r = int(rng.integers(1, 7))
-        if route == "default":
+        stiff = False
+        if route in ("default", "solveunc-h-pre"):
             nrb = r if rng.random() < 0.5 else int(rng.integers(1, r + 1))
             phib = np.eye(r) if nrb == r else rng.standard_normal((r, nrb))
             M, B, K, _ = _gen_struct(rng, r, int(rng.integers(1, 6)), phib, ("prop", "modal", "nonprop")[it % 3])
             n_ = M.shape[0]
+            if route == "solveunc-h-pre" or it % 7 == 3:
+                # one heavy dashpot in a lightly damped structure: the elastic roots mix over-damped (real) and
+                # under-damped (complex) eigenvalues
+                i = int(rng.integers(0, n_))
+                B = B.copy()
+                B[i, i] += 2.0 * math.sqrt(abs(K[i, i]) * M[i, i]) * float(rng.uniform(1.5, 6.0))
+                stiff = True
             if it % 5 == 0:
                 T = rng.standard_normal((r, n_))  # dense recovery matrix
                 tk = "dense"
@@ -388,11 +401,14 @@ def _drm_cases(ctx):
             w = 2 * np.pi * 30
             K = (_rand_spd(rng, n_, 0.1, 4.0) + 0.15 * rng.standard_normal((n_, n_))) * w * w
             B = (_rand_spd(rng, n_, 0.1, 2.0) + 0.15 * rng.standard_normal((n_, n_))) * (0.04 * w)
-            T = rng.standard_normal((r, n_)) if it % 3 == 0 else np.eye(r, n_)[:, rng.permutation(n_)]
-            tk = "dense" if it % 3 == 0 else "select"
+            dense = bool(rng.random() < 0.4)
+            T = rng.standard_normal((r, n_)) if dense else np.eye(r, n_)[:, rng.permutation(n_)]
+            tk = "dense" if dense else "select"
         nf = int(rng.integers(2, 6))
         freq = np.sort(rng.uniform(1.0, 150.0, nf))
-        out.append({"route": route, "M": M, "B": B, "K": K, "T": T, "freq": freq, "tk": tk})
+        if it % 4 == 1:
+            freq = np.arange(2, 2 + 7 * nf, 7) + int(rng.integers(0, 20))  # an integer-dtype frequency vector (np.arange)
+        out.append({"route": route, "M": M, "B": B, "K": K, "T": T, "freq": freq, "tk": tk, "stiff": stiff})
     return out
 
 
@@ -405,6 +421,9 @@ def _calc_am(frclim, ode, c):
             return frclim.calcAM(S, c["freq"], fs=ode.FreqDirect(c["M"], c["B"], c["K"]))
         if route == "solveunc":
             return frclim.calcAM(S, c["freq"], fs=ode.SolveUnc(c["M"], c["B"], c["K"]))
+        if route in ("solveunc-h", "solveunc-h-pre"):
+            # the solver object one already has for transient runs (built with a time step: conjugate modes deleted)
+            return frclim.calcAM(S, c["freq"], fs=ode.SolveUnc(c["M"], c["B"], c["K"], 0.001, pre_eig=route.endswith("pre")))
         return frclim.calcAM(S, c["freq"])
 
 
@@ -422,7 +441,9 @@ def _compare_am(ctx, stream, c, inp, am, model, cond, extra_ok=None):
         sc = np.abs(model[:, j, :]).max()
         e = np.abs(am[:, j, :] - model[:, j, :]).max() / max(sc, 1e-300)
         worst = max(worst, e)
-        if not e <= TOL * max(1.0, cond[j] / 100):
+        # a heavy local dashpot mixes real and complex roots: the eigen-solver based routes lose about three more digits
+        # there (measured), so those cases are compared at 1e-6 (a wrong mode set is an O(1) error)
+        if not e <= TOL * (1e3 if c.get("stiff") else 1.0) * max(1.0, cond[j] / 100):
             ctx.disagree(stream, inp, {"freq_index": j, "impl": _enc(am[:, j, :])},
                          {"model": _enc(model[:, j, :]), "relerr": float(e), "cond": float(cond[j])})
             break
@@ -446,7 +467,7 @@ def _corr_drm(ctx, drv, frclim, ode):
         model = _parse_c(line, (r, nf, r))
         _, _, cond = _am_numpy(c["M"], c["B"], c["K"], c["T"], c["freq"])
         inp = {"kind": "calcAM-drm", "route": c["route"], "M": _enc(c["M"]), "B": _enc(c["B"]), "K": _enc(c["K"]),
-               "T": _enc(c["T"]), "freq": c["freq"].tolist()}
+               "T": _enc(c["T"]), "freq": c["freq"].tolist(), "stiff": bool(c.get("stiff"))}
         ctx.case(("drm", c["M"].tobytes()[:64], c["T"].tobytes()[:32]), nontrivial=r >= 2,
                  branch="calcAM-drm:%s:%s" % (c["route"], c["tk"]))
         try:
@@ -495,6 +516,8 @@ def _pv_cases(ctx):
         freq = np.sort(rng.uniform(1.0, 150.0, nf))
         if it % 4 == 1:
             freq[0] = 0.0
+        if it % 6 == 2:
+            freq = np.arange(2, 2 + 9 * nf, 9) + int(rng.integers(0, 20))  # integer dtype, as from np.arange
         out.append({"M": M, "B": B, "K": K, "bset": bset, "freq": freq, "nq": nq, "sym": sym})
     return out
 
@@ -800,7 +823,8 @@ def _replay_input_raw(inp, frclim, ode):
             fails = []
             r = c["T"].shape[0]
             _chk(fails, "calcAM-drm-%s-vs-definition-%s" % (c["route"], "multi-dof" if r > 1 else "single-dof"),
-                 "calcAM differs from inv(T Z^-1 T' (-W^2)) computed with numpy", inp, am, ref, cond, 1)
+                 "calcAM differs from inv(T Z^-1 T' (-W^2)) computed with numpy", inp, am, ref, cond, 1,
+                 tol=TOL * (1e3 if inp.get("stiff") else 1.0))
             return _fdict(fails[0]) if fails else None
         if kind == "calcAM-pv":
             # model-free meaning of the partition form: enforce unit boundary accelerations on the
